@@ -32,3 +32,40 @@ Example C19_ex_race :
   run {| p_dur := 3; p_res := OValue 7; p_swallow := true |} [Tick; Expire; Tick; Tick] = (MReturned OTimeout, WDone) /\
   run {| p_dur := 3; p_res := OValue 7; p_swallow := true |} [Tick; Expire; Tick] = (MJoining, WRunning 2 false).
 Proof. vm_compute. repeat split. Qed.
+
+(* nested limits (an outer limit around a call that sets its own, longer or shorter): for every schedule of worker progress
+   and of the two expiries, once the caller has its answer neither the function nor the middle thread is running, and the
+   answer is the function's result or TimeoutError *)
+Theorem C19_nested_nothing_running : forall p sched o m w,
+  nrun true p sched = (OReturned o, m, w) -> w = WDone \/ w = WDead.
+Proof. exact nested_nothing_running. Qed.
+Print Assumptions C19_nested_nothing_running.
+
+Theorem C19_nested_middle_ended : forall fx p sched o m w,
+  nrun fx p sched = (OReturned o, m, w) -> m = MidDone \/ m = MidDead.
+Proof. exact nested_middle_ended. Qed.
+Print Assumptions C19_nested_middle_ended.
+
+Theorem C19_nested_outcome : forall fx p sched o m w,
+  nrun fx p sched = (OReturned o, m, w) -> o = p_res p \/ o = OTimeout.
+Proof. exact nested_outcome. Qed.
+Print Assumptions C19_nested_outcome.
+
+(* the limiter as found (before 7b08eac) leaves the function running: outer expiry, then inner expiry *)
+Theorem C19_nested_leak_refuted :
+  exists p sched o m k inj, nrun false p sched = (OReturned o, m, WRunning k inj).
+Proof. exact nested_leak_refuted. Qed.
+Print Assumptions C19_nested_leak_refuted.
+
+(* what the driver lists for the correspondence run are reachable states only *)
+Theorem C19_nested_exploration_sound : forall fx p n s s',
+  In s' (nreach fx p n s) -> exists sched, length sched = n /\ fold_left (nstep fx p) sched s = s'.
+Proof. exact nreach_reachable. Qed.
+Print Assumptions C19_nested_exploration_sound.
+
+Example C19_ex_nested :
+  nrun true {| p_dur := 5; p_res := OValue 7; p_swallow := false |} [NTick; NExpireO; NTick; NExpireI; NTick]
+    = (OReturned OTimeout, MidDead, WDead) /\
+  nrun true {| p_dur := 2; p_res := OValue 7; p_swallow := false |} [NTick; NTick] = (OReturned (OValue 7), MidDone, WDone) /\
+  nrun true {| p_dur := 5; p_res := OValue 7; p_swallow := false |} [NTick; NExpireI; NTick] = (OReturned OTimeout, MidDone, WDead).
+Proof. vm_compute. repeat split. Qed.
